@@ -28,6 +28,10 @@ pub struct Sources {
 impl Sources {
     /// Split a nominal per-shard position budget over the sources.
     pub fn standard(n: u64) -> Sources {
+        if n < 50 {
+            // tiny budgets (Miri): a few positions from every source
+            return Sources { fixed: true, family_each: 1, walks: 1, walk_plies: (n as usize).clamp(2, 8), scattered: n.max(2), three_man: 0, mirror_every: 0 };
+        }
         Sources {
             fixed: true,
             family_each: (n / 20).max(2),
@@ -109,7 +113,17 @@ pub fn run(ctx: &mut Ctx, src: &Sources, f: &mut PosFn) {
     };
 
     if src.fixed {
+        let miri = ctx.config == "miri";
         for (i, p) in gen::fixed_positions().iter().enumerate() {
+            if miri {
+                // one or two fixed corners per shard, rotating with the seed
+                let slot = (i as u64 + ctx.seed) % (ctx.nshards as u64 * 6);
+                if slot != ctx.shard as u64 {
+                    continue;
+                }
+                visit(ctx, p, "fixed", f);
+                continue;
+            }
             if ctx.mine(i as u64) {
                 visit(ctx, p, "fixed", f);
                 // fixed corners always get their mirror too
